@@ -303,10 +303,11 @@ func (x *X) external(fr *Frame, st *State, fn *ssa.Function, args []SV, cc *ssa.
 		r := pureUF("pure; result finite for finite x and non-zero finite y, NaN otherwise unspecified")
 		return r
 	case "math.Pow10":
-		r := pureUF("pure; +Inf for n > 308, 0 for n < -323, positive finite otherwise")
+		r := pureUF("pure; +Inf for n > 308, 0 for n < -323, positive finite otherwise, >= 1 for n >= 0")
 		rt := r[0].(Term)
 		n := argT(0)
 		it := types.Typ[types.Int]
+		x.vc.assume(mkImplies(x.enc.intCmp(token.GEQ, n, x.enc.intConst(0, it), it), app(SBool, "fp.geq", rt, x.enc.floatConst(1, SF64))))
 		x.vc.assume(mkImplies(x.enc.intCmp(token.GTR, n, x.enc.intConst(308, it), it), mkAnd(app(SBool, "fp.isInfinite", rt), app(SBool, "fp.isPositive", rt))))
 		x.vc.assume(mkImplies(x.enc.intCmp(token.LSS, n, x.enc.intConst(-323, it), it), app(SBool, "fp.isZero", rt)))
 		x.vc.assume(mkImplies(mkAnd(x.enc.intCmp(token.LEQ, n, x.enc.intConst(308, it), it), x.enc.intCmp(token.GEQ, n, x.enc.intConst(-323, it), it)),
@@ -428,6 +429,31 @@ func (x *X) external(fr *Frame, st *State, fn *ssa.Function, args []SV, cc *ssa.
 		x.vc.assume(mkAnd(x.ile(x.ic(0), w), x.ile(w, x.ic(4)), x.ile(w, app(isz, "strlen", s))))
 		x.vc.assume(mkImplies(x.ilt(x.ic(0), app(isz, "strlen", s)), x.ile(x.ic(1), w)))
 		return rets
+	}
+	// AppendX(dst []byte, ...) []byte : extends dst in place or in a fresh array
+	if strings.Contains(name, ".Append") && sig.Results().Len() == 1 {
+		if _, ok := sig.Results().At(0).Type().Underlying().(*types.Slice); ok {
+			for i, p := range fn.Params {
+				if sl, ok := p.Type().Underlying().(*types.Slice); ok && types.Identical(p.Type(), sig.Results().At(0).Type()) {
+					src := argT(i)
+					r := x.vc.fresh("appended", SSlice)
+					ob, _, ol, _ := x.sliceParts(src)
+					nb, _, nl, _ := x.sliceParts(r)
+					alloc := x.get(st, x.allocKey())
+					na := x.vc.fresh("alloc", SInt)
+					x.vc.assume(app(SBool, "<=", alloc, na))
+					st.mem[x.allocKey()] = na
+					x.assumeWF(st, r, p.Type())
+					x.vc.assume(mkOr(mkEq(nb, ob), app(SBool, ">=", nb, alloc)))
+					x.vc.assume(x.ile(ol, nl))
+					es := x.enc.sortOf(sl.Elem())
+					k := x.elemsKey(es)
+					st.mem[k] = x.vc.define("h", mkStore(x.get(st, k), nb, x.vc.fresh("appelems", arraySort(isz, es))))
+					x.enc.assumption("external " + name + ": appends to its destination slice in place or into a fresh array")
+					return []SV{r}
+				}
+			}
+		}
 	}
 	// time and other value-only externals: pure uninterpreted functions
 	if strings.HasPrefix(name, "time.") || strings.HasPrefix(name, "(time.") || strings.HasPrefix(name, "(*time.") {
@@ -644,7 +670,9 @@ func (x *X) externalInvoke(fr *Frame, st *State, recv SV, m *types.Func, args []
 		x.enc.assumption("context: Err() is non-nil (and wraps only the context's own error) once Done() is closed")
 		return []SV{mkIte(done, T(SInt, "ctxerr"), intLit(0))}
 	case "(context.Context).Value":
-		return []SV{x.ufS("ctx_value", SAny, x.asTerm(recv, nil), x.asTerm(args[0], nil))}
+		v := x.vc.define("ctxval", x.ufS("ctx_value", SAny, x.asTerm(recv, nil), x.asTerm(args[0], nil)))
+		x.assumeWF(st, v, types.NewInterfaceType(nil, nil))
+		return []SV{v}
 	case "(error).Error":
 		r := x.vc.define("errstr", x.ufS("err_error", SStr, x.asTerm(recv, errorType)))
 		x.vc.assume(x.ile(x.ic(0), app(x.enc.isz(), "strlen", r)))
